@@ -28,6 +28,30 @@ def parseStep (tok : String) : Option (Graph × List Nat) :=
     | _, _ => none
   | _ => none
 
+def kindOf (c : Char) : Option Kind :=
+  if c == 'd' || c == 't' then some .dep else if c == 's' then some .source else if c == 'a' then some .data
+  else if c == 'r' then some .runtime else if c == 'i' then some .internal else none
+
+/-- `0:1d,2a;1:-` : dependencies with a kind letter (d dep, t tool, s source, a data, r run-time, i internal) -/
+def parseKAdj (s : String) : Option (List (Nat × List (Nat × Kind))) :=
+  if s = "-" then some [] else
+  (s.splitOn ";").mapM fun e =>
+    match e.splitOn ":" with
+    | [k, v] => do
+      let k ← k.toNat?
+      if v = "-" then pure (k, [])
+      else
+        let es ← (v.splitOn ",").mapM fun tok => do
+          let cs := tok.toList
+          match cs.getLast? with
+          | some c =>
+            let kind ← kindOf c
+            let n ← (String.ofList cs.dropLast).toNat?
+            pure (n, kind)
+          | none => none
+        pure (k, es)
+    | _ => none
+
 def showRes : Res → String
   | .none => "none"
   | .cyc c _ => "cycle " ++ showNats c
@@ -35,6 +59,16 @@ def showRes : Res → String
 
 def step (line : String) : String :=
   match line.splitOn " " with
+  | ["kcheck", ns, kadj] =>
+    match parseNats ns, parseKAdj kadj with
+    | some nodes, some al =>
+      let keys := al.map (·.1)
+      if nodes.all (fun n => keys.count n == 1) && keys.all (nodes.contains ·) &&
+         al.all (fun e => e.2.all (fun d => nodes.contains d.1)) then
+        let kg : KGraph := fun t => match al.lookup t with | some ds => ds | none => []
+        showRes (kcheck genCfg genAccessor kg nodes)
+      else "bad-op"
+    | _, _ => "bad-op"
   | "seq" :: toks =>
     if toks.isEmpty then "bad-op" else
     match toks.mapM parseStep with
